@@ -20,8 +20,8 @@ func fmtApk() *format {
 			{Name: "libstdc++", Version: "12.2.1_git20220924-r10", Tag: "plusplus-git"},
 			{Name: "a.b-c", Version: "0.1_rc1-r0", Tag: "dotted-name-rc"},
 			{Name: "py3-foo_bar", Version: "2.0.0-r1", Tag: "underscore"},
-			{Name: "ca-certificates", Version: "20230506-r0", Tag: "date-version"},
-			{Name: "9base", Version: "6-r2", Tag: "digit-start"},
+			{Name: "9base1", Version: "6-r2", Tag: "name+version-concat-equals-digit-start"},
+			{Name: "9base", Version: "16-r2", Tag: "digit-start"},
 		},
 		dims: []dim{
 			{name: "trail", labels: []string{"blank-line-after-last", "no-newline", "one-newline"}},
